@@ -250,7 +250,12 @@ func c03FormatCase(w *rt.W, v sem.Ver) {
 			w.Fail("format-verb", "format", args, verb+" -> "+s, wantV, "Sprintf "+verb)
 		}
 	}
-	w.Eval(51)
+	for _, verb := range wideVerbs {
+		if s := fmt.Sprintf(verb, v); s != text {
+			w.Fail("format-verb", "format", args, verb+" -> "+s, text, "Sprintf "+verb)
+		}
+	}
+	w.Eval(51 + 208)
 	if got, err := sem.DefaultFormatter([]byte("v"), v, sem.FormatTag); err != nil || string(got) != "vv"+text {
 		w.Fail("format-component", "format", args, string(got), "vv"+text, "DefaultFormatter(\"v\", FormatTag) must append v and the plain decimal components")
 	}
